@@ -11,6 +11,8 @@ import (
 	"net/http/httptest"
 	"reflect"
 	"strings"
+	"sync"
+	"sync/atomic"
 	"testing"
 	"time"
 
@@ -27,6 +29,7 @@ func init() { vDrivers["C10"] = driveC10 }
 // jar carried across steps.  After every step the next request loads exactly what was last saved, field by
 // field, or nothing after a clear.
 func driveC10(t *testing.T, out *vEmitter) {
+	defer vC10ConcurrentSaves(t, out)
 	r := vRand()
 	mr, mrErr := miniredis.Run()
 	if mrErr == nil {
@@ -133,6 +136,71 @@ func driveC10(t *testing.T, out *vEmitter) {
 					}
 				}
 			}
+		}
+	}
+}
+
+// vC10ConcurrentSaves: several browsers saving at the same moment (logins and refreshes of different users): each browser
+// presents on its next request exactly the session IT saved - nobody's cookie carries another browser's session or a torn one.
+func vC10ConcurrentSaves(t *testing.T, out *vEmitter) {
+	for _, redis := range []bool{false, true} {
+		e := vNewEnv(t, vEnvCfg{oidc: true, redis: redis})
+		var wrong, failed, total int64
+		var mu sync.Mutex
+		var first map[string]interface{}
+		var wg sync.WaitGroup
+		n := vPick(250, 2500)
+		for g := 0; g < 8; g++ {
+			wg.Add(1)
+			go func(g int) {
+				defer wg.Done()
+				r := rand.New(rand.NewSource(int64(7000 + g)))
+				b := e.newBrowser("https://app.example.com")
+				for i := 0; i < n; i++ {
+					s := vRandSession(r)
+					s.Email = fmt.Sprintf("user%d-%d@example.com", g, i)
+					s.User = fmt.Sprintf("user%d", g)
+					req := httptest.NewRequest("GET", "https://app.example.com/", nil)
+					if ch := b.cookieHeader("/"); ch != "" {
+						req.Header.Set("Cookie", ch)
+					}
+					rw := httptest.NewRecorder()
+					if err := e.p.sessionStore.Save(rw, req, s); err != nil {
+						atomic.AddInt64(&failed, 1)
+						continue
+					}
+					b.jar.SetCookies(b.origin, (&http.Response{Header: rw.Header()}).Cookies())
+					req2 := httptest.NewRequest("GET", "https://app.example.com/next", nil)
+					req2.Header.Set("Cookie", b.cookieHeader("/next"))
+					got, err := e.p.sessionStore.Load(req2)
+					atomic.AddInt64(&total, 1)
+					d := ""
+					if err != nil || got == nil {
+						d = "load failed: " + fmt.Sprint(err)
+					} else {
+						d = vSessionDiff(s, got)
+					}
+					if d != "" && atomic.AddInt64(&wrong, 1) == 1 {
+						mu.Lock()
+						first = map[string]interface{}{"store_redis": redis, "browser": g, "save": i, "difference": d, "saved_email": s.Email, "concurrent_browsers": 8}
+						if got != nil {
+							first["loaded_email"] = got.Email
+						}
+						mu.Unlock()
+					}
+				}
+			}(g)
+		}
+		wg.Wait()
+		out.Obs("concurrent-saves", true, vL(vBool(redis), vI(total), vI(wrong), vI(failed)))
+		out.Stat("c10_concurrent_saves", int(total))
+		if wrong > 0 {
+			first["wrong_loads"] = wrong
+			first["saves"] = total
+			out.Violation("cookie-store/load-after-save", "the session loaded on the next request is not the one just saved", first)
+		}
+		if failed > 0 {
+			out.Violation("session-store/save-error", "Save failed on a healthy store", map[string]interface{}{"store_redis": redis, "failed": failed, "concurrent": true})
 		}
 	}
 }
